@@ -22,6 +22,7 @@ def value_corpus(F, tier, name):
     recs += gen.g_tie_digit_counts(F, rng, tier)
     recs += gen.g_disguised_wrap(F, rng, tier)
     recs += gen.g_short_eighths(F, rng, tier)[:: 2 if q else 1]
+    recs += gen.g_zero_limbs(F, rng, tier)
     recs += gen.g_budget_splits(F, rng, tier)[:: 3 if q else 1]
     recs += gen.g_extremes(F, rng, big=20000 if q else 1000000)
     recs += gen.g_runs(F, rng, 80 if q else 3000)
@@ -60,7 +61,8 @@ def c01(tier):
              "truncations), G13 (carry into the next binade incl. subnormal -> normal), G14 (d x 10^q for every q), G15 (exact "
              "64-bit products w x 5^q with forced low-bit patterns), G16 (first product's low word all ones), G17 (exact "
              "ties for every digit count and both ends of a decade), G18 (disguised fast path: scaled significand wraps), "
-             "G19 (decimal point at every position next to the digit budget), G20 (short exact values at r/8 of an ulp, three spellings); "
+             "G19 (decimal point at every position next to the digit budget), G20 (short exact values at r/8 of an ulp, three spellings), "
+             "G21 (integer parts ending in 64..192 zeros: zero low limbs); "
              "distinct = distinct (int,frac,exp) triples; "
              "every record is adjudicated by TLC with IEEE!Judge",
         level_note="TLC evaluates the declarative rounding definition (IEEE.tla) on each (input, bits) pair observed "
@@ -219,17 +221,47 @@ def c11(tier):
                 else:
                     violations.append(core.write_replay("C11", {"property": "C11", "input": key, "config": cfgs[k],
                                                                 "record": recs[rid - 1], "verdict": v}))
+    # "declined" must also be HONOURED: every triple the stage declined in some configuration (and a sample of the
+    # others) is spelled as text and parsed end to end; a wrong float there means the decline was taken for an answer
+    declined = [r for r, m in zip(inputs, recs) if any(o["kind"] == "value" and not o["valid"] for o in m["outs"])
+                and core.from_limbs(r["w"]) < 10 ** 19]
+    rng = gen.rng_for("C11e2e")
+    others = [r for r in inputs if core.from_limbs(r["w"]) < 10 ** 19 and core.from_limbs(r["w"]) > 0]
+    e2e_src = declined + rng.sample(others, min(len(others), 300 if tier == "quick" else 5000))
+    e2e = []
+    for r in e2e_src:
+        w = str(core.from_limbs(r["w"]))
+        if r["trunc"] and len(w) == 19:
+            e2e.append(gen.mk(r["fmt"], w, "5", r["q"], "C11:e2e-trunc"))
+            e2e.append(gen.mk(r["fmt"], w, "0" * 30 + "1", r["q"], "C11:e2e-trunc"))
+        elif not r["trunc"]:
+            e2e.append(gen.mk(r["fmt"], w, "", r["q"], "C11:e2e"))
+    e2e = gen.normalise(gen.dedup(e2e))
+    e2e_bad = 0
+    if e2e:
+        outs2 = parsecheck.run_impl(wd, e2e, cfgs, name="e2e")
+        merged = parsecheck.merge(e2e, outs2)
+        verd2, _, res2 = parsecheck.adjudicate(wd, merged, {"VALUE"}, "C11-e2e")
+        for rid, v in verd2.items():
+            if v["verdict"] == "impl_violates":
+                e2e_bad += 1
+                violations.append(core.write_replay("C11", {"property": "C11", "what": "the stage declined (or answered) and the caller "
+                                                            "returned a wrong float for the same digits", "input": parsecheck.describe(e2e[rid - 1]),
+                                                            "record": merged[rid - 1], "verdict": v}))
+            elif v["verdict"] not in ("ok",):
+                raise core.ToolError("C11 end-to-end record not adjudicated: %s" % v)
     known = sorted(known)
     tags = collections.Counter(r["tag"] for r in inputs)
     cov = {
-        "states": res.distinct, "transitions": res.generated,
+        "states": res.distinct, "transitions": res.generated, "end_to_end_records": len(e2e), "declined_triples_parsed": len(declined),
         "traces_validated_against_impl": len(recs) * len(cfgs),
         "evaluations": len(recs) * len(cfgs),
         "distinct_nontrivial": len({(r["fmt"], str(r["w"]), r["q"], r["trunc"]) for r in inputs}),
         "rule": "(w,q,truncated) triples: w = first 17..20 digits of exact float midpoints (+-1) for every / sampled "
                 "exponent field, exact ties inside the tie window, special w and q at every short-circuit, random; "
                 "each run through moderate_path in default (Eisel-Lemire) and compact (Bellerophon) builds; TLC decides "
-                "the contract with IEEE!Judge on w*10^q and on the upper end (w+1)*10^q",
+                "the contract with IEEE!Judge on w*10^q and on the upper end (w+1)*10^q; every declined triple is also parsed end to "
+                "end as text (the decline must be honoured by the caller)",
         "samples": [{"fmt": r["fmt"], "w": str(core.from_limbs(r["w"])), "q": r["q"], "trunc": r["trunc"], "tag": r["tag"]}
                     for r in inputs[:: max(1, len(inputs) // 8)]][:10],
         "families": dict(tags), "contract_outcomes": dict(outcome), "model_actions": dict(actions),
@@ -570,6 +602,10 @@ def c04(tier):
         inputs += gen.g_beyond_range(F, rng, 1 if q else 4)
         inputs += gen.g_int_ties(F, rng, 20 if q else 400)
         inputs += gen.g_runs(F, rng, 100 if q else 2500)
+        inputs += gen.g_zero_limbs(F, rng, tier)
+        inputs += gen.g_budget_splits(F, rng, tier)[:: 4 if q else 1]
+        inputs += gen.g_carry(F, rng, tier)[:: 4 if q else 1]
+        inputs += gen.g_tie_digit_counts(F, rng, tier)
     inputs = gen.normalise(gen.dedup(inputs))
     parsecheck.parse_property_check(
         "C04", tier, inputs, cfgs, {"NOPANIC", "MODEL"}, profiles=("release", "checked"),
